@@ -352,9 +352,10 @@ private:
 
 class DeferredWriter {
 public:
-    void deferred_write(File&& file, const std::string& destination_path, bool should_backup, std::function<void(const std::string&)> permission_callback)
+    void deferred_write(File&& file, const std::string& destination_path, bool should_backup,
+        std::function<void(const std::string&)> make_writable, std::function<void(const std::string&)> permission_callback)
     {
-        m_deferred_writes.push_back(FileWrite { std::move(file), destination_path, should_backup, std::move(permission_callback) });
+        m_deferred_writes.push_back(FileWrite { std::move(file), destination_path, should_backup, std::move(make_writable), std::move(permission_callback) });
     }
 
     void deferred_remove(const std::string& path)
@@ -367,6 +368,7 @@ public:
         for (auto& deferred_write : m_deferred_writes) {
             // The directory may have been removed in the meantime by a later patch removing the last file in it.
             ensure_parent_directories(deferred_write.destination_path);
+            deferred_write.make_writable(deferred_write.destination_path);
             // The file is only moved out of the way now that what replaces it is written, so that it is
             // not left missing should we never get here.
             if (deferred_write.should_backup)
@@ -392,6 +394,7 @@ private:
         File source;
         std::string destination_path;
         bool should_backup;
+        std::function<void(const std::string&)> make_writable;
         std::function<void(const std::string&)> permission_callback;
     };
 
@@ -405,11 +408,12 @@ struct PermissionResult {
     bool had_failure { false };
 };
 
+static const auto write_perm_mask = filesystem::perms::group_write | filesystem::perms::owner_write | filesystem::perms::others_write;
+
 static PermissionResult fix_permissions_if_needed(std::ostream& out, const Options& options, const std::string& output_file)
 {
     PermissionResult result;
     result.old_permissions = filesystem::get_permissions(output_file);
-    const auto write_perm_mask = filesystem::perms::group_write | filesystem::perms::owner_write | filesystem::perms::others_write;
     result.needed_to_fix_permissions = (result.old_permissions & write_perm_mask) == filesystem::perms::none;
 
     if (result.needed_to_fix_permissions) {
@@ -422,9 +426,6 @@ static PermissionResult fix_permissions_if_needed(std::ostream& out, const Optio
 
             out << " trying to patch anyway\n";
         }
-
-        if (!options.dry_run)
-            filesystem::permissions(output_file, result.old_permissions | write_perm_mask);
     }
 
     return result;
@@ -438,6 +439,13 @@ void write_patched_result_to_file(const Patch& patch, const std::string& output_
         ensure_parent_directories(output_file_path);
 
     const auto new_mode_copy = patch.new_file_mode;
+
+    // A read-only file is only made writable right before it is written to, so that it is not left that way
+    // should we give up on the patch before we get there.
+    auto make_writable = [permission_result](const std::string& path) {
+        if (permission_result.needed_to_fix_permissions)
+            filesystem::permissions(path, permission_result.old_permissions | write_perm_mask);
+    };
 
     auto permission_callback = [permission_result, new_mode_copy](const std::string& path) {
         if (new_mode_copy != 0) {
@@ -468,9 +476,10 @@ void write_patched_result_to_file(const Patch& patch, const std::string& output_
                 backup.make_backup_for(output_file_path);
             filesystem::symlink(symlink_target, output_file_path);
         } else {
-            deferred_writer.deferred_write(std::move(patched_file), output_file_path, should_backup, std::move(permission_callback));
+            deferred_writer.deferred_write(std::move(patched_file), output_file_path, should_backup, std::move(make_writable), std::move(permission_callback));
         }
     } else {
+        make_writable(output_file_path);
         if (should_backup)
             backup.make_backup_for(output_file_path);
         File file(output_file_path, mode | std::ios::trunc);
